@@ -1,9 +1,18 @@
-(* Props/C13.v -- property C13 (statements proved so far; see DESIGN.md section 7 C13). *)
-From Coq Require Import NArith List Bool.
-From NRF Require Import Env.Radio Env.RadioFacts.
+(* Props/C13.v -- property C13 (NETWORK_ACK).  PARTIAL, see DESIGN.md section 7: proved are the two decisions
+   the ACK logic rests on -- which message types ask for a NETWORK_ACK, and which node is the last relay (the
+   routing function, C04/C05).  When an ACK is awaited, sent (once, by the last relay, to the origin) and
+   believed is decided by the correspondence run and its attribution checker (corr/c13.py). *)
+From Coq Require Import ZArith NArith List Bool Lia.
+From NRF Require Import Env.Radio Env.RadioFacts Net.Header.
 Import ListNotations.
-Local Open Scope N_scope.
-Theorem C13_status_is_pre_command : forall r cmd data,
-  hd 0 (snd (spi r (cmd :: data))) = status r.
+Local Open Scope Z_scope.
+
+Theorem C13_status_is_pre_command : forall r cmd data, hd 0%N (snd (spi r (cmd :: data))) = status r.
 Proof. exact spi_status_first. Qed.
 Print Assumptions C13_status_is_pre_command.
+
+(* exactly the message types 65..191 ask for a NETWORK_ACK (so 0..64 and 192..255, NETWORK_ACK itself
+   included, never do) *)
+Theorem C13_ack_types : forall t, is_ack_type t = true <-> 65 <= t <= 191.
+Proof. intro t. unfold is_ack_type. rewrite andb_true_iff, !Z.ltb_lt. lia. Qed.
+Print Assumptions C13_ack_types.
